@@ -20,6 +20,9 @@ ASSUMPTIONS = ["rmax = maximum of the model's reward table computed from the spe
                "empirical model is rebuilt from the listener-recorded experience (first m samples per pair)"]
 
 
+import copy as copy_mod
+
+
 def run_case(case, rng):
     from msdm.algorithms.rmax import RMAX, RMAXEventListener
     from mon.gen import build as Bd
@@ -145,6 +148,25 @@ def run_case(case, rng):
         res = case.call("RMAX.train_on", learner.train_on, mdp)
     if res is case.FAIL:
         return
+    if rng.random() < 0.2:
+        # the learner goes on to another problem over the same labels AFTER this result was returned (and that later result is
+        # used): what is judged below - Q-values, policy - is the result returned for THIS problem
+        later = copy_mod.deepcopy(sp)
+        for k_ in later.R:
+            later.R[k_] = -later.R[k_] - 1.0
+        later_mdp = Bd.build(later, "subclass")
+        keep = (learner.rmax, dict(state), list(exp))
+        learner.rmax = float(np.max(later_mdp.reward_matrix))
+        state["warmup"] = True
+        r_later = case.call("RMAX.train_on(another problem afterwards)", learner.train_on, later_mdp, facts=dict(reuse=True))
+        if r_later is not case.FAIL:
+            case.call("policy.action_dist(later result)", lambda: [r_later.policy.action_dist(s_) for s_ in later_mdp.state_list])
+        learner.rmax = keep[0]
+        state.clear()
+        state.update(keep[1])
+        state["warmup"] = False
+        exp[:] = keep[2]
+        case.count("results_judged_after_the_learner_was_reused")
     er = case.call("event_listener_results.episode_rewards", lambda: list(res.event_listener_results.episode_rewards))
     if er is not case.FAIL:
         want_er = state.get("ep_reward_sums", [])
